@@ -3,7 +3,7 @@ import DispatchVerif.Core.Utf16P
     the object, and the statement the property asks for: the result does not depend on how the input is cut into regions.
     Region `k` covers `[off, off + n)`; the loop body at position `pos` reads the unit at `pos` (from the region if both
     bytes are in it, through a two-byte mapped sub-range otherwise — the same two bytes of the object either way; a sub-range
-    that is short, i.e. an odd byte at the very end, makes the transform fail), handles the byte-order marks at position 0,
+    that is short, i.e. an odd byte at the very end, makes the transform fail), rejects a wrong-endian byte-order mark at position 0,
     and for a high surrogate the unit at `pos + 2` likewise. The new `skip` is how far the last unit consumed reaches into the
     following regions. `Utf16P` is the same loop written with the code's own indices; both are compared with the real
     library on every run. -/
@@ -26,7 +26,6 @@ def step1 (be : Bool) (flat : List Nat) (pos : Nat) : St :=
   | none => .fail
   | some ch =>
     if ch = 0xfffe ∧ pos = 0 then .fail
-    else if ch = 0xfeff ∧ pos = 0 then .emit [] 2
     else if 0xd800 ≤ ch ∧ ch ≤ 0xdbff then
       match look be flat (pos + 2) with
       | none => .fail
@@ -63,16 +62,14 @@ theorem step1_pos {be : Bool} {flat : List Nat} {pos : Nat} {us : List Nat} {n :
   · split at h
     · cases h
     · split at h
-      · injection h with _ h2; omega
       · split at h
-        · split at h
-          · cases h
-          · split at h
-            · cases h
-            · injection h with _ h2; omega
+        · cases h
         · split at h
           · cases h
           · injection h with _ h2; omega
+      · split at h
+        · cases h
+        · injection h with _ h2; omega
 
 /-- fuel beyond `e - pos` makes no difference -/
 theorem runTo_fuel (be : Bool) (flat : List Nat) (e : Nat) : ∀ (f f' pos : Nat) (out : List Nat),
